@@ -427,18 +427,32 @@ C17_FATAL = {"rr_new:ok", "rr_regen:ok", "rr_regen:alpha", "rr_regen:alphaG", "r
 C19_INV = ["InvAccept", "InvSingles", "InvSoundness", "Emit"]
 
 
+def big_plan(n, bad):
+    """one batch of n items under key 1, the items at positions `bad` have an altered response"""
+    kd = "[j \\in 1..%d |-> IF j \\in %s THEN \"z\" ELSE \"ok\"]" % (n, tla_set(bad))
+    return "[n |-> %d, ks |-> [j \\in 1..%d |-> 1], kd |-> %s, ds |-> [j \\in 1..%d |-> 1]]" % (n, n, kd, n)
+
+
 def c19_slices(tier):
     th = tier == "thorough"
     sl = []
+    # large batches (up to 65 items): an invalid item at the first, a middle, the 32nd/33rd and the last position
+    plans = [big_plan(33, [1]), big_plan(40, [20]), big_plan(40, [40]), big_plan(65, [32]), big_plan(65, [33]), big_plan(64, []),
+             big_plan(33, [1, 33])]
+    if th:
+        plans += [big_plan(65, [j]) for j in (1, 2, 31, 34, 64, 65)]
+    sl.append(dict(name="D_large_batches", module="C19", invariants=C19_INV, consts=consts(
+        251, Keys="{2}", NonceChoices="{3}", MaxItems="0", Kinds='{"ok"}', Blinders="{1}", BigPlans="{" + ", ".join(plans) + "}",
+        DomH2="{7}", EMIT="TRUE")))
     sl.append(dict(name="A_positions_kinds", module="C19", invariants=C19_INV, timeout=3000, consts=consts(
         7 if th else 5, Keys="{2,3}", NonceChoices="{3}", MaxItems="3", Kinds='{"ok","z","R","msg","key"}',
-        Blinders=ZQ(7) if th else "{1,4}", DomH2="{1,2}" if th else "{2}", EMIT="TRUE")))
+        Blinders=ZQ(7) if th else "{1,4}", DomH2="{1,2}" if th else "{2}", BigPlans="{}", EMIT="TRUE")))
     # complementary +d / -d pairs under every pair of blinders (accepted exactly when the blinders repeat)
     sl.append(dict(name="C_cancelling_pairs", module="C19", invariants=C19_INV, consts=consts(
-        7, Keys="{2}", NonceChoices="{3}", MaxItems="2", Kinds='{"z","R"}', Blinders=ZQ(7), DomH2="{2}", EMIT="TRUE")))
+        7, Keys="{2}", NonceChoices="{3}", MaxItems="2", Kinds='{"z","R"}', Blinders=ZQ(7), DomH2="{2}", BigPlans="{}", EMIT="TRUE")))
     sl.append(dict(name="B_four_items", module="C19", invariants=C19_INV, consts=consts(
         5, Keys="{2}", NonceChoices="{3}", MaxItems="4", Kinds='{"ok","z"}', Blinders="{0,1,4}" if not th else ZQ(5),
-        DomH2="{2}", EMIT="TRUE")))
+        DomH2="{2}", BigPlans="{}", EMIT="TRUE")))
     return sl
 
 
